@@ -441,6 +441,31 @@ fn boxed_forms(cx: &mut Cx, iters: usize, maxl: usize) {
     }
 }
 
+// a downstream type that implements only the required method of `ConstantTimeSelect`: it reaches the trait's DEFAULT
+// `ct_assign` and `ct_swap` bodies, which no type of the crate uses (they all override them or go through the blanket impl)
+#[derive(Clone)]
+struct Probe(Vec<u64>);
+impl vh::cb::ConstantTimeSelect for Probe {
+    fn ct_select(a: &Self, b: &Self, choice: vh::cb::subtle::Choice) -> Self {
+        let m = (choice.unwrap_u8() as u64).wrapping_neg();
+        Probe(a.0.iter().zip(b.0.iter()).map(|(x, y)| x ^ (m & (x ^ y))).collect())
+    }
+}
+fn default_trait_forms(cx: &mut Cx, iters: usize) {
+    use vh::cb::ConstantTimeSelect;
+    for it in 0..iters {
+        let n = 1 + it % 4;
+        let (av, bv) = (nat(&mut cx.rng, n), nat(&mut cx.rng, n));
+        let (a, b) = (Probe(av.clone()), Probe(bv.clone()));
+        for ch in [false, true] {
+            let s = |form: &str, q: &str| es(form, q, 64 * n, 64 * n, ch, &av, &bv);
+            cx.call(s("downstream.ConstantTimeSelect.ct_select", "select"), || O::ok().n("r", &Probe::ct_select(&a, &b, cc(ch)).0));
+            cx.call(s("downstream.ConstantTimeSelect.default.ct_assign", "assign"), || { let mut t = a.clone(); t.ct_assign(&b, cc(ch)); O::ok().n("r", &t.0) });
+            cx.call(s("downstream.ConstantTimeSelect.default.ct_swap", "swap"), || { let (mut t, mut v) = (a.clone(), b.clone()); Probe::ct_swap(&mut t, &mut v, cc(ch)); O::ok().n("r", &t.0).n("r2", &v.0) });
+        }
+    }
+}
+
 fn main() {
     let mut cx = Cx::from_args("C06");
     let s = cx.scale;
@@ -466,5 +491,6 @@ fn main() {
     if cx.want("boxed") {
         boxed_forms(&mut cx, 420 * s, 40);
     }
+    if cx.want("downstream") { default_trait_forms(&mut cx, 20 * s); }
     cx.finish();
 }
